@@ -783,12 +783,20 @@ fn judge_nondeg<const D: usize>(cx: &mut Cx<D>, o: &Oracle<D>, rng: &mut Rng, np
         // lowest set bit over all coordinates: translations by multiples of it are the ones most
         // likely to be exact for full-mantissa inputs
         let e_min = base.iter().flat_map(|p| p.iter()).filter(|x| **x != 0.0).map(|x| Dy::from_f64(*x).e).min().unwrap_or(0) as i32;
-        for attempt in 0..6 {
+        for phase in 0..2 {
+        for attempt in (if phase == 0 { 0..6 } else { 6..10 }) {
             let s = match attempt {
                 0 | 1 => lg + rng.range_i64(-2, 6) as i32,
                 2 | 3 => e_min + rng.range_i64(0, 12) as i32,
-                _ => e_min + rng.range_i64(0, 2) as i32,
+                4 | 5 => e_min + rng.range_i64(0, 2) as i32,
+                // far translations (S518): 2^12..2^24 edge lengths away. Formulas that multiply absolute
+                // coordinates before subtracting lose (offset/edge)^2 ulps; the allowance below grows only
+                // linearly with the offset. Exact only for inputs with short mantissas (else skipped).
+                _ => lg + rng.range_i64(12, 24) as i32,
             };
+            if attempt >= 6 {
+                cx.out.count("translation/far/attempts");
+            }
             if !(-900..=900).contains(&s) {
                 continue;
             }
@@ -806,6 +814,9 @@ fn judge_nondeg<const D: usize>(cx: &mut Cx<D>, o: &Oracle<D>, rng: &mut Rng, np
             let tt = tolerances(o, tn * 2.0);
             let v = cx.lib_vals(&e);
             cx.out.count("translation/cases");
+            if attempt >= 6 {
+                cx.out.count("translation/far/cases");
+            }
             if !tt.ill {
                 cx.check_acc(o, &tt, &e, Some(&tv), &v);
             }
@@ -856,6 +867,7 @@ fn judge_nondeg<const D: usize>(cx: &mut Cx<D>, o: &Oracle<D>, rng: &mut Rng, np
                 }
             }
             break;
+        }
         }
         if !done {
             cx.out.count("translation/skipped_no_exact_translation");
